@@ -2,7 +2,7 @@
 """development aid: (re)generate /verif/seeded/<id>/ from the collected, confirmed mutants"""
 import json, os, glob, shutil, subprocess, re
 conf = {}
-for f in ('/root/scratch/mutconfirm.jsonl', '/root/scratch/mutconfirm2.jsonl', '/root/scratch/mutconfirm3.jsonl', '/root/scratch/mutconfirm_r2.jsonl'):
+for f in ('/root/scratch/mutconfirm.jsonl', '/root/scratch/mutconfirm2.jsonl', '/root/scratch/mutconfirm3.jsonl', '/root/scratch/mutconfirm_r2.jsonl', '/root/scratch/mutconfirm_r3.jsonl'):
     if os.path.exists(f):
         for l in open(f):
             l = l.strip()
@@ -12,8 +12,8 @@ det = {}
 if os.path.exists('/root/scratch/detect.json'):
     det = json.load(open('/root/scratch/detect.json'))
 head = subprocess.run(['git', '-C', '/repo', 'rev-parse', '--short', 'HEAD'], capture_output=True, text=True).stdout.strip()
-for md in sorted(glob.glob('/root/mutants/C*/m*')) + sorted(glob.glob('/root/mutants2/C*/m*')):
-    prop = md.split('/')[-2]; mid = prop + ('-r2' if '/mutants2/' in md else '-') + md.split('/')[-1]
+for md in sorted(glob.glob('/root/mutants/C*/m*')) + sorted(glob.glob('/root/mutants2/C*/m*')) + sorted(glob.glob('/root/mutants3/C*/m*')):
+    prop = md.split('/')[-2]; mid = prop + ('-r2' if '/mutants2/' in md else '-r3' if '/mutants3/' in md else '-') + md.split('/')[-1]
     c = conf.get(md)
     if not c: continue
     ok = c.get('applies') and c['build_default'] == 0 and c['build_nodefault'] == 0 and c['suite_exit'] == 0 and c['demo_on_head_exit'] == 0 and c['demo_on_mutant_exit'] != 0
